@@ -128,3 +128,7 @@ Theorem C12_pool_imports_sorted_invariant : forall l l', NoDup l -> (forall x, I
   Permutation l l' -> jinja_sort l = jinja_sort l'.
 Proof. exact pool_imports_sorted_invariant. Qed.
 Print Assumptions C12_pool_imports_sorted_invariant.
+
+Theorem C12_create_retry_is_unconditional : gen_create_retry_unconditional = true.
+Proof. exact create_retry_is_unconditional. Qed.
+Print Assumptions C12_create_retry_is_unconditional.
